@@ -101,6 +101,18 @@ def stepPure (toks : List String) : Option String :=
   | ["initpool", ma, mb, price, ts, fr, pr] => do
       let ma ← ma.toNat?; let mb ← mb.toNat?; let price ← price.toNat?; let ts ← ts.toNat?; let fr ← fr.toNat?; let pr ← pr.toNat?
       pure (showR ((initializePoolChecks ma mb price ts fr pr).map fun p => s!"{p.feeRate} {p.protoRate} {p.price} {p.tick} {p.ts}"))
+  | ["xinit", ts, tierTs, price, order, fee, proto, pa, na, fa, ha, ba, pb, nb, fb, hb, bb] => do
+      let ts ← ts.toNat?; let tierTs ← tierTs.toNat?; let price ← price.toNat?; let order ← order.toNat?
+      let fee ← fee.toNat?; let proto ← proto.toNat?
+      let pa ← b01 pa; let na ← b01 na; let fa ← b01 fa; let ba ← ba.toNat?
+      let pb ← b01 pb; let nb ← b01 nb; let fb ← b01 fb; let bb ← bb.toNat?
+      let ta ← (if ha == "-" then some [] else parseHex ha.toList)
+      let tb ← (if hb == "-" then some [] else parseHex hb.toList)
+      let a : MintIn := { token2022 := pa, native := na, freeze := fa, tlv := ta, badge := ba }
+      let b : MintIn := { token2022 := pb, native := nb, freeze := fb, tlv := tb, badge := bb }
+      pure (match initializePoolV2 (if order = 1 then 2 else 1) (if order = 0 then 2 else 1) a b price ts tierTs fee proto with
+        | .ok (p, nt) => s!"ok {p.feeRate} {p.protoRate} {p.price} {p.tick} {if nt then 1 else 0}"
+        | .error e => "err " ++ e)
   | ["mdr", n0, n1, d, up] => do
       let n0 ← n0.toNat?; let n1 ← n1.toNat?; let d ← d.toNat?; let up ← b01 up
       pure (showR ((checkedMulDivRoundUpIf n0 n1 d up).map toString))
